@@ -9,8 +9,8 @@ SPEC = {
     "rule": ("one case = one history of handshake events executed against a fresh REAL stack (ServerAuthHandler + SessionManager + "
              "built-in CloudControl on memory storage + SecretKeyManager + BruteForceProtector + IPManager + RateLimiter); "
              "valid responses are real HMAC-SHA256 values computed by the harness from the challenge it read back. quick: every "
-             "history of length <= 3 over a 30-event alphabet (2 connections x {first-connect, phase-1 A/B, phase-2 A/B valid-latest, "
-             "stale, foreign key, foreign connection's challenge, junk, tunnel-type phase 1/2, malformed} + ban/unban/blacklist/expire/blacklist a CIDR range/restart = a new IPManager loading the lists from the same storage) "
+             "history of length <= 3 over a 34-event alphabet (2 connections x {first-connect, phase-1 A/B, phase-2 A/B valid-latest, "
+             "stale, foreign key, foreign connection's challenge, junk, tunnel-type phase 1/2, malformed} + ban/unban/blacklist/expire/blacklist a CIDR range/permanent ban/lapsed temporary ban/whitelist/restart = a new IPManager loading the lists from the same storage/failing credential generation) "
              "plus every history of length <= 3 over a 12-event alphabet on one connection for a usable client A and a client V whose stored secret is unusable (sealed under another master key / empty ciphertext / legacy plaintext field only; phase 1 A/V, phase 2 naming V with the empty key, V's ciphertext bytes as key, V's legacy plaintext, A's key, V's original secret, phase 2 naming A valid / empty key, tunnel type, re-sealing events), plus 12000 seeded random histories of length <= 14 over 2-3 connections sharing or not sharing addresses, 1-3 clients, "
              "unknown ids, id 0, deleted clients, clients with unusable stored secrets, degenerate key terms, limiter bursts 1-3, refills, unknown connections; thorough: length <= 4 "
              "exhaustive plus 60000 random. After every event the harness reads the response written, IsAuthenticated/GetClientID/"
@@ -27,10 +27,10 @@ SPEC = {
         "first occurrence, so a repeated challenge would show), HMAC-SHA256 collision free; AES-GCM storage of the secret = a state usable | undecryptable | empty | legacy; Decrypt succeeds only for usable",
     ],
     "assumptions": [
-        "IPManager whitelist not modelled (never populated by the harness); CIDR blacklist entries are /24 ranges of two addresses each; only the IPManager is re-created on restart; no blacklist entry expires inside a history",
-        "BruteForceProtector: the whole history lies inside one failure window (recent = total failures); ban expiry = an unban event",
+        "IPManager whitelist: exact entries only (whitelisted ranges not exercised); CIDR blacklist entries are /24 ranges of two addresses each; only the IPManager is re-created on restart; no blacklist entry expires inside a history",
+        "BruteForceProtector: the whole history lies inside one failure window (recent = total failures); a ban is permanent, long temporary, or a temporary one that has lapsed before the next event (`bans`)",
         "RateLimiter: integral tokens, no refill inside a history (Rate 0 in the harness); refill = an explicit event",
-        "GenerateAnonymousCredentials / GenerateChallenge never fail (memory storage, crypto/rand)",
+        "GenerateChallenge never fails (crypto/rand); GenerateAnonymousCredentials fails only through the injected `issue fail` fault",
         "handshake messages of one server are processed one at a time (the session layer's per-connection read loop); "
         "ControlConnection.ClientID/Authenticated are plain fields and concurrent handshakes on one connection are out of scope",
         "the client index holds object pointers; the model keeps connection ids, which coincide with object identity for "
